@@ -1,6 +1,7 @@
 package main
 
 import (
+	"encoding"
 	"bytes"
 	stdjson "encoding/json"
 	"fmt"
@@ -449,6 +450,12 @@ func c17DecodeOracle(c *Ctx, body string) {
 			if serr == nil {
 				ok := err == nil && bytes.Equal(t.B, st.B)
 				c.Oracle("dec/text/"+mode, lit, fmt.Sprintf("%q err=%v", t.B, err), fmt.Sprintf("%q", st.B), ok, "")
+				// the same TextUnmarshaler held in a non-empty interface destination
+				held := &c17Text{}
+				var u encoding.TextUnmarshaler = held
+				err = dec(lit, &u)
+				ok = err == nil && bytes.Equal(held.B, st.B)
+				c.Oracle("dec/ifacetext/"+mode, lit, fmt.Sprintf("%q err=%v", held.B, err), fmt.Sprintf("%q", st.B), ok, "")
 			}
 		}
 		{
